@@ -200,9 +200,11 @@ Definition set_col (f : cell -> cell) (src tgt : nat) (d : list row) : list row 
 Definition add_entries (w : wl) (entry source : string) (f : cell -> cell) (override : bool) : option wl :=
   if String.eqb entry "" then None else
   let n := w_names w in
-  let in_header := smem (n_header n) entry in
+  (* "if lentry not in self._header and override" / "if lentry in self._header and not override":
+     the lower-cased name is looked up among all reachable spellings *)
+  let in_header := smem (n_hdr n) (lower entry) in
   let override := if negb in_header && override then false else override in
-  if smem (n_hdr n) entry && negb override then None        (* confirm(...) *)
+  if in_header && negb override then None                    (* confirm(...) *)
   else if override then
     match sget (n_hdr n) source, sget (n_hdr n) (lower entry) with
     | Some src, Some tgt =>
